@@ -99,12 +99,27 @@ def mk_message(ex, name, tag):
     L = ex.prog.layout
     vi = L.variant_index("Message", name)
     fl = L.adts["Message"]["variants"][vi][1]
-    if name == "Missing":
-        payload = (Seq(()),)
-    elif name == "ParseFailure":
-        payload = (Adt("ParseFailure", L.variant_index("ParseFailure", "Stderr"), (Opaque("doc", (tag,)),)),)
+    us = lambda: ex.fresh("ndix", 64)
+    mv = Adt("Metavar", 0, ("M",))
+
+    def opt_us():
+        return NONE if tok.choose_free(ex, 2, "nd-optix") == 0 else SOME(us())
+    typed = {
+        "NoEnv": lambda: ("VAR",), "ParseSome": lambda: ("some msg",), "ParseFail": lambda: ("fail msg",),
+        "PureFailed": lambda: ("pure msg",), "Missing": lambda: (Seq(()),),
+        "ParseFailure": lambda: (Adt("ParseFailure", L.variant_index("ParseFailure", "Stderr"), (Opaque("doc", (tag,)),)),),
+        "StrictPos": lambda: (us(), mv), "NonStrictPos": lambda: (us(), mv),
+        "ParseFailed": lambda: (opt_us(), "conversion msg"), "GuardFailed": lambda: (opt_us(), "guard msg"),
+        "NoArgument": lambda: (us(), mv), "Unconsumed": lambda: (us(),), "Ambiguity": lambda: (us(), "ab"),
+        "Suggestion": lambda: (us(), Opaque("suggestion", (tag,))), "Conflict": lambda: (us(), us()),
+        "Expected": lambda: (Seq(()), opt_us()), "OnlyOnce": lambda: (us(), us()),
+    }
+    if name in typed:
+        payload = typed[name]()
     else:
         payload = tuple(Opaque("payload", (tag, i)) for i in range(len(fl)))
+    if len(payload) != len(fl):
+        raise ExecError("Message::%s has %d fields, model builds %d" % (name, len(fl), len(payload)))
     return Adt("Message", vi, payload)
 
 
